@@ -188,9 +188,13 @@ def rule_pinned_ends(db, chk, cfg, rule="END.pinned"):
         if not pins:
             chk.violation(rule, f.qual, "pins", "SimplifyPath no longer pins the end points of an open path (distSqr[0] = distSqr[high] = MAX_DBL)", f.where, cfg=cfg)
         # guarded re-computations inside the main loop
-        loops = [x for x in walk(f.body) if x.get("kind") == "ForStmt" and not [c for c in kids(x)[:4] if c and c.get("kind")]]
+        # the main loop: the outermost loop that marks vertices as removed (assigns flags[..])
+        loops = []
+        for x in kids(f.body):
+            if x.get("kind") in ("ForStmt", "WhileStmt", "DoStmt") and "(flags[" in canon(x) and " = true)" in canon(x):
+                loops.append(x)
         if len(loops) != 1:
-            raise AnalysisBroken("main loop `for (;;)` of SimplifyPath not found")
+            raise AnalysisBroken("main loop of SimplifyPath (the one assigning flags[..]) not found uniquely (%d)" % len(loops))
         par = {}
         for x in walk(loops[0]):
             for c in kids(x):
